@@ -73,7 +73,7 @@ def run_mc(chk, only=None):
     def one(job):
         k, (fam, cfg) = job
         time.sleep(0.4 * k)  # chk.tlc numbers its scratch directories at entry
-        return chk.tlc("MC_Instancer", cfg=cfg, label=cfg, timeout=3000, workers=workers, heap="3g")
+        return chk.tlc("MC_Instancer", cfg=cfg, label=cfg, timeout=3000 if chk.tier == "quick" else 9000, workers=workers, heap="3g")
 
     with ThreadPoolExecutor(len(jobs)) as ex:
         res = list(ex.map(one, enumerate(jobs)))
@@ -381,14 +381,14 @@ def store_tasks(chk, gen, bad):
     for fam in ("one", "one2", "two"):
         for i, (case, D) in enumerate(gen.get(fam, [])):
             full = bool(i % 2)
-            # every case through the tuple store before rounding (exact); after rounding, through the
-            # item store and through instantiateGvarGlyph: all in the thorough tier, a seeded share in quick
+            # every case through the tuple store before rounding (exact); a seeded share of them also
+            # after rounding, through the item store and through instantiateGvarGlyph
             tasks.append((case, D, "tvs", False, full, 1))
-            if not quick or rng.random() < 0.3:
+            if rng.random() < (0.3 if quick else 0.5):
                 tasks.append((case, D, "tvs", True, full, 0))
-            if not quick or rng.random() < 0.15:
+            if rng.random() < (0.15 if quick else 0.25):
                 tasks.append((case, D, "ivs", True, full, 0))
-            if not quick or rng.random() < 0.15:
+            if rng.random() < (0.15 if quick else 0.25):
                 tasks.append((case, D, "gvar", rng.random() < 0.5, full, 0))
     badkeys = {_case_key(c) for c, _ in bad}
     for case, D in gen.get("fv", []):
@@ -415,15 +415,27 @@ def judge_and_report(chk, traces, label=""):
         kinds[kk] = kinds.get(kk, 0) + 1
     from concurrent.futures import ThreadPoolExecutor
 
-    if len(real) > 3000:
-        def part(k):
-            time.sleep(0.5 * k)
-            return chk.judge("Trace_C08", real[k::2], chunk=30000, timeout=3000, workers=8, heap="5g")
+    # whole-font traces are large and slow to judge, function-level traces small and fast: separate
+    # TLC runs (two at a time; initial states are parsed on one thread each)
+    small = [t for t in real if t["k"] != "font"]
+    big = [t for t in real if t["k"] == "font"]
+    jobs = []
+    if len(small) > 3000:
+        jobs += [(small[0::2], 40000), (small[1::2], 40000)]
+    elif small:
+        jobs.append((small, 40000))
+    if len(big) > 400:
+        jobs += [(big[0::2], 1500), (big[1::2], 1500)]
+    elif big:
+        jobs.append((big, 1500))
 
-        with ThreadPoolExecutor(2) as ex:
-            rej = [x for p in ex.map(part, (0, 1)) for x in p]
-    else:
-        rej = chk.judge("Trace_C08", real, chunk=30000, timeout=3000, workers=16, heap="5g")
+    def part(job):
+        k, (traces_, chunk) = job
+        time.sleep(0.5 * k)
+        return chk.judge("Trace_C08", traces_, chunk=chunk, timeout=7200, workers=(16 if len(jobs) == 1 else 8 if len(jobs) == 2 else 5), heap="6g")
+
+    with ThreadPoolExecutor(max(1, min(4, len(jobs)))) as ex:
+        rej = [x for p in ex.map(part, enumerate(jobs)) for x in p]
     notes = chk.notes.setdefault("refactoring_notes", {})
     rejected = []
     for t, clause in rej:
@@ -451,10 +463,25 @@ def report(chk, rejected):
         chk.reject(c, what, rep)
 
 
+def _dev_share(items):
+    """development aid only (C08_DEV_SHARE=0.1): keep a fixed pseudo-random subset of the tasks of a
+    tier, so that a mutant caught on the subset is a fortiori caught by the tier"""
+    share = float(os.environ.get("C08_DEV_SHARE") or 1)
+    if share >= 1:
+        return items
+    return [x for i, x in enumerate(items) if ((i * 2654435761) % 1000003) / 1000003.0 < share]
+
+
 def run(chk):
     import multiprocessing as mp
 
+    # development aids (never set by ./check or the registered commands): C08_PARTS selects parts,
+    # C08_DEV_MC re-uses the exported (M) cases of an earlier run, C08_DEV_SHARE judges a fixed subset
     parts = set((os.environ.get("C08_PARTS") or "M,RS,RF,V").split(","))
+    dev = {k: os.environ[k] for k in ("C08_PARTS", "C08_DEV_MC", "C08_DEV_SHARE") if os.environ.get(k)}
+    if dev:
+        chk.notes["DEVELOPMENT_RUN_not_evidence"] = dev
+        chk.log("DEVELOPMENT RUN (partial): %s" % dev)
     chk.rule = ("one case = one instancing by the real code: a TLC-generated (delta sets, limits) lattice case through "
                 "instantiateTupleVariationStore / instantiateItemVariationStore / instantiateGvarGlyph / featureVars, a realised "
                 "model font or a corpus font x limit specification through instantiateVariableFont, judged by TLC at every "
@@ -468,19 +495,19 @@ def run(chk):
         if "V" in parts:
             from . import c08_corpus
 
-            vt = c08_corpus.tasks(chk)
+            vt = _dev_share(c08_corpus.tasks(chk))
             pending = pool.map_async(c08_corpus.work, vt, 1)
         gen, bad = run_mc(chk) if "M" in parts else ({}, [])
         chk.log("(M) done in %.0fs" % (time.time() - t0))
         if "RS" in parts:
-            st = store_tasks(chk, gen, bad)
+            st = _dev_share(store_tasks(chk, gen, bad))
             res = pool.map(_store_work, chunks(st, 200), 1)
             traces += [t for r in res for t in r]
             chk.log("(R) function level: %d traces (%.0fs)" % (len(traces), time.time() - t0))
         if "RF" in parts:
             from . import c08_corpus
 
-            ft = c08_corpus.model_tasks(chk, gen, bad)
+            ft = _dev_share(c08_corpus.model_tasks(chk, gen, bad))
             res = pool.map(c08_corpus.work, ft, 1)
             n0 = len(traces)
             traces += [t for r in res for t in r]
@@ -557,3 +584,43 @@ def replay(chk, rep):
     for tr, c in rejected:
         chk.log("rejected:", c, json.dumps(describe(tr), default=repr)[:600])
     report(chk, rejected)
+
+
+def selftest(chk):
+    """vacuity check of the binding: recordings corrupted in one field must be rejected by TLC,
+    the genuine ones accepted"""
+    from . import c08_corpus
+
+    chk.rule = "self-test: corrupted recordings must be rejected by TLC"
+    case = {"vars": [[[[0, 2, 4]], [3, -4]], [[[-4, -4, 0]], [-2, 1]]], "lims": [[-2, 1, 3, 1, 2]], "map": 1, "fvs": [], "avar_knots": []}
+    case2 = {"vars": [], "lims": [[-2, 0, 2, 1, 1], [-1, -1, -1, 1, 1]], "map": 1, "fvs": [[[1, 2], []], [[], [0, 2]]], "avar_knots": []}
+    good = [store_trace(case, 4, "tvs", False, False, 1), store_trace(case, 4, "tvs", True, False, 0),
+            store_trace(case, 4, "ivs", True, False, 0), store_trace(case, 4, "gvar", True, False, 0),
+            fv_trace({"lims": [[-1, 1, 2, 1, 1], [-2, -2, -2, 1, 1]], "fvs": [[[1, 2], []], [[], [1, 2]]]}, 2),
+            c08_corpus.model_trace(case, 4, 1, 1, False), c08_corpus.model_trace(case, 4, 2, 1, True),
+            c08_corpus.model_trace(case2, 2, 0, 1, False)]
+    for t in good:
+        if t["k"] in ("exc", "inexact", "skip"):
+            raise MachineryError("self-test: could not record a genuine case: %s" % describe(t))
+    bad = []
+    b = copy.deepcopy(good[0]); b["out"][0][1][0] = [b["out"][0][1][0][0] + b["out"][0][1][0][1], b["out"][0][1][0][1]]; bad.append(("PreservedExact", b))
+    b = copy.deepcopy(good[1]); b["out"][0][1][0] = [b["out"][0][1][0][0] + 2 * b["out"][0][1][0][1], b["out"][0][1][0][1]]; bad.append(("Preserved:beyond-rounding-budget", b))
+    b = copy.deepcopy(good[1]); b["dflt"][0] = [2 * b["dflt"][0][0] + 3 * b["dflt"][0][1], 2 * b["dflt"][0][1]]; bad.append(("Preserved:beyond-rounding-budget", b))
+    b = copy.deepcopy(good[2]); b["leftover"] = 1; bad.append(("PinnedAxisLeft", b))
+    b = copy.deepcopy(good[4]); b["out"] = b["out"][1:]; bad.append(("FeatureVars", b))
+    b = copy.deepcopy(good[5]); b["inst"]["axes"][0][1] = [b["inst"]["axes"][0][1][0] + 1, b["inst"]["axes"][0][1][1]]; bad.append(("AxesCorrect:min-default-max", b))
+    b = copy.deepcopy(good[5]); b["inst"]["items"][0]["b"] += 3 * 1024; bad.append(("Preserved", b))
+    b = copy.deepcopy(good[5]); b["inst"]["instances"] = b["inst"]["instances"][1:]; bad.append(("AxesCorrect:named-instances", b))
+    b = copy.deepcopy(good[5]); b["inst"]["stat"] = b["inst"]["stat"][:-1]; bad.append(("STAT:axis-values", b))
+    b = copy.deepcopy(good[7]); b["inst"]["tables"].append("gvar"); bad.append(("Static:variation-table-left", b)) if not b["inst"]["axes"] else None
+    b = copy.deepcopy(good[7]); b["inst"]["fv"]["recs"] = []; bad.append(("FeatureVars", b))
+    rejected = judge_and_report(chk, good + [b for _, b in bad])
+    got = {id(t): c for t, c in rejected}
+    for t in good:
+        if id(t) in got:
+            raise MachineryError("self-test: a genuine recording was rejected: %s %s" % (got[id(t)], json.dumps(describe(t))[:500]))
+    missed = [(want, got.get(id(b))) for want, b in bad if not (got.get(id(b)) or "").startswith(want)]
+    if missed:
+        raise MachineryError("self-test: corrupted recordings not rejected as expected (wanted, got): %s" % missed)
+    chk.notes["selftest"] = "%d corrupted recordings rejected (%s); %d genuine accepted" % (len(bad), sorted({w for w, _ in bad}), len(good))
+    chk.log(chk.notes["selftest"])
